@@ -47,6 +47,12 @@ for fam, pat, rules in (('Bochvar', '*B3E', 'Biconditional*'), ('FDE', '*FDE', '
     F.append(dict(property='C01', key=f'C01:unsound-rule:{pat}:{rules}', status='known',
         what=f'{fam} family: closed tableaux that use the inexact biconditional rules (see the C04 findings) can be refuted by a countermodel, '
              'e.g. B3E |- A<->B, KB3E ~(A<->B), A |- ~B, FDE A<>B |- (~A&~B)v(A&B)'))
+for fam, pat in (('Bochvar', '*B3E'), ('FDE', '*FDE')):
+    F.append(dict(property='C03', key=f'C03:valid-not-tt:{pat}:*Biconditional*', status='known',
+        what=f'{fam} family: propositional arguments whose closed tableau uses the inexact biconditional rules (C04 findings) are reported valid '
+             'although a truth-table assignment refutes them'))
+    F.append(dict(property='C11', key=f'C11:extension:{pat}->*:*Biconditional*', status='known',
+        what=f'{fam} family: arguments "valid" only through the inexact biconditional rules are refuted in the declared stronger logics'))
 # (d) FDE family: conjunction / disjunction along the chain F<N<B<T
 ROWS = [('Conjunction', 'NB'), ('Conjunction', 'BN'), ('Disjunction', 'NB'), ('Disjunction', 'BN'),
         ('MaterialConditional', 'NB'), ('MaterialConditional', 'BN'), ('MaterialBiconditional', 'NB'), ('MaterialBiconditional', 'BN'),
